@@ -116,13 +116,7 @@ Proof. intros H. apply allws_app in H as [_ H]. unfold allws in H. cbn [forallb]
 Lemma attr_trail_clash x R t : WfAttr x -> WfTrail t -> r_attr x ++ R = t -> False.
 Proof.
   intros WX WT E. destruct (wfattr_parts _ WX) as (N1 & _ & QW & _). unfold r_attr in E. rewrite <- !app_assoc in E.
-  destruct WT as [AW|(pre & nm & q & w & -> & PN & PW & NN & QQ & WN & WW & _)].
-  - rewrite <- E in AW. rewrite app_assoc in AW. exact (allws_has_no_61 _ _ AW).
-  - assert (E' : (xa_ws x ++ xa_name x) ++ 61 :: ([xa_quote x] ++ xa_value x ++ [xa_quote x] ++ R) = (pre ++ nm) ++ 61 :: (q :: w)).
-    { rewrite <- !app_assoc. exact E. }
-    assert (N2 : no_byte 61 (pre ++ nm)) by (apply no_byte_app; split; [apply allws_no_byte; [exact PW|reflexivity]|exact NN]).
-    destruct (cut_unique 61 _ _ _ _ N1 N2 E') as [_ EB]. cbn [app] in EB. injection EB as _ EV.
-    rewrite <- EV in WW. apply allws_app in WW as [_ WW]. unfold allws in WW. cbn [forallb] in WW. rewrite QW in WW. discriminate WW.
+  rewrite <- E in WT. unfold WfTrail in WT. rewrite app_assoc in WT. exact (allws_has_no_61 _ _ WT).
 Qed.
 
 Lemma atts_trail_unique a1 : forall a2 t1 t2, Forall WfAttr a1 -> Forall WfAttr a2 -> WfTrail t1 -> WfTrail t2 ->
@@ -150,12 +144,7 @@ Proof.
 Qed.
 
 Lemma trail_no62 t : WfTrail t -> no_byte 62 t.
-Proof.
-  intros [AW|(pre & nm & q & w & -> & _ & PW & _ & QQ & _ & WW & N62)]; [apply allws_no_byte; [exact AW|reflexivity]|].
-  rewrite !no_byte_app. split; [apply allws_no_byte; [exact PW|reflexivity]|]. split; [exact N62|]. split.
-  - apply no_byte_cons. split; [discriminate|]. apply no_byte_cons. split; [destruct QQ as [-> | ->]; discriminate|reflexivity].
-  - apply allws_no_byte; [exact WW|reflexivity].
-Qed.
+Proof. intros AW. apply allws_no_byte; [exact AW|reflexivity]. Qed.
 
 Lemma tag_no62 name atts trail : clean_name name = true -> Forall WfAttr atts -> WfTrail trail -> no_byte 62 (tagtext name atts trail).
 Proof.
@@ -172,10 +161,9 @@ Proof. intros A NE. destruct w as [|x r]; [congruence|]. exists x, r. split; [re
 Lemma tag_after_name atts trail : Forall WfAttr atts -> WfTrail trail -> stops name_byte (r_atts atts ++ trail).
 Proof.
   intros FA WT. destruct atts as [|x l].
-  - cbn [r_atts map List.concat app]. destruct WT as [AW|(pre & nm & q & w & -> & PN & PW & _)].
-    + destruct trail as [|y r]; [left; reflexivity|]. right. exists y, r. split; [reflexivity|].
-      destruct (allws_head _ AW ltac:(discriminate)) as (y' & r' & E & W). injection E as <- <-. exact (ws_not_name _ W).
-    + destruct (allws_head _ PW PN) as (y & r & -> & W). right. exists y, (r ++ nm ++ [61; q] ++ w). split; [reflexivity|exact (ws_not_name _ W)].
+  - cbn [r_atts map List.concat app]. pose proof WT as AW.
+    destruct trail as [|y r]; [left; reflexivity|]. right. exists y, r. split; [reflexivity|].
+    destruct (allws_head _ AW ltac:(discriminate)) as (y' & r' & E & W). injection E as <- <-. exact (ws_not_name _ W).
   - pose proof (Forall_inv FA) as (WN & WA & _). destruct (allws_head _ WA WN) as (y & r & E & W). right.
     unfold r_atts. cbn [map List.concat]. unfold r_attr at 1. rewrite E. cbn [app]. eexists y, _. split; [reflexivity|exact (ws_not_name _ W)].
 Qed.
@@ -195,11 +183,8 @@ Proof.
       destruct WA as (_ & _ & _ & QQ & _). destruct QQ as [Q|Q]; rewrite Q in EQ; discriminate EQ.
   - rewrite <- ET in *. assert (TNE : trail <> []) by (rewrite ET; discriminate).
     assert (LW : exists tr' z, trail = tr' ++ [z] /\ is_ws z = true).
-    { destruct WT as [AW|(pre & nm & q & w & EQT & _ & _ & _ & _ & WN & WW & _)].
-      - destruct (exists_last TNE) as (tr' & z & EL). exists tr', z. split; [exact EL|]. rewrite EL in AW. apply allws_app in AW as [_ AW].
-        unfold allws in AW. cbn in AW. apply andb_prop in AW as [AW _]. exact AW.
-      - destruct (exists_last WN) as (w' & z & EL). exists (pre ++ nm ++ [61; q] ++ w'), z. split; [rewrite EQT, EL, <- !app_assoc; reflexivity|].
-        rewrite EL in WW. apply allws_app in WW as [_ WW]. unfold allws in WW. cbn in WW. apply andb_prop in WW as [WW _]. exact WW. }
+    { pose proof WT as AW. destruct (exists_last TNE) as (tr' & z & EL). exists tr', z. split; [exact EL|]. rewrite EL in AW. apply allws_app in AW as [_ AW].
+      unfold allws in AW. cbn in AW. apply andb_prop in AW as [AW _]. exact AW. }
     destruct LW as (tr' & z & EL & WZ). rewrite EL in E. rewrite !app_assoc in E. apply app_inj_tail in E as [_ ->]. discriminate WZ.
 Qed.
 
